@@ -1480,9 +1480,11 @@ def shard(ctx):
           "Columns get_column_sizes + render with probes (flow, box_columns, box-sized), small option set")
     sweep("pile", pile_cases({n: PILE_SMALL for n in range(1, ctx.scale(3, 4) + 1)}, maxrow=(1, 14), render=True),
           _pile_nontrivial, _pile_classes, "Pile get_rows_sizes + render with probes, small option set")
-    sweep("pile", spelled(pile_cases({n: PILE_REDUCED for n in range(1, ctx.scale(3, 4) + 1)}, maxrow=(1, 14), render=True), "items"),
+    sweep("pile", spelled(pile_cases({n: ctx.scale(PILE_SMALL, PILE_REDUCED) for n in range(1, ctx.scale(3, 4) + 1)},
+                                     maxrow=(1, 14), render=True), "items"),
           _pile_nontrivial, _pile_classes,
-          "Pile get_item_rows + get_rows_sizes + render, reduced option set, every spelling of the options + 2 mixed")
+          "Pile get_item_rows + get_rows_sizes + render, small (thorough: reduced) option set, every spelling of the "
+          "options + 2 mixed")
     sweep("columns", columns_spelled_cases(ctx.scale(3, 4), ctx.scale(2, 3)), _columns_nontrivial, _columns_classes,
           "Columns column_widths + get_column_sizes + render, small option set, dividechars 1, min_width 2, every "
           "spelling of the options (quick <=2, thorough <=3 children) + 2 mixed (all lengths)")
